@@ -234,16 +234,19 @@ theorem good_step {t t' : Fns} (op : Op) (hg : Good t) (h : apply t op = some t'
     · cases h
   | setPostSetattr b =>
     simp only [apply] at h
-    cases h
-    refine ⟨?_, hga, hsa⟩
-    intro f
-    cases f
-    case postSetattr =>
-      show (if b = true then _ else _) ∈ _
-      split
-      · exact misc_facts.1
-      · exact misc_facts.2.1
-    all_goals exact ha _
+    split at h
+    · cases h
+      exact ⟨ha, hga, hsa⟩
+    · cases h
+      refine ⟨?_, hga, hsa⟩
+      intro f
+      cases f
+      case postSetattr =>
+        show (if b = true then _ else _) ∈ _
+        split
+        · exact misc_facts.1
+        · exact misc_facts.2.1
+      all_goals exact ha _
 
 theorem good_of_constructible {t : Fns} (h : Constructible t) : Good t := by
   induction h with
